@@ -346,7 +346,9 @@ class Kernel:
             return self._real["read"](fd, n)
         self._point("read")
         while True:
-            r, _, _ = select.select([fd], [], [], 0)
+            po = select.poll()            # (select.select is limited to descriptors below 1024)
+            po.register(fd, select.POLLIN | select.POLLHUP)
+            r = po.poll(0)
             if r:
                 return self._real["read"](fd, n)
             if self.pending and self.handler is not None:
